@@ -83,10 +83,12 @@ def save_footprints_to_netcdf(results, config, filepath):
                 wind_speed_data[t] = r["params"]["wind_speed"]
                 wind_dir_data[t] = r["params"]["wind_dir"]
 
-    # Tower metadata
-    tower_lats = [t.lat for t in config.towers]
-    tower_lons = [t.lon for t in config.towers]
-    tower_z = [t.z_m for t in config.towers]
+    # Tower metadata: looked up by name so that every entry of the "tower"
+    # coordinate (results key order) carries its own latitude/longitude/height
+    towers_by_name = {t.name: t for t in config.towers}
+    tower_lats = [towers_by_name[name].lat for name in tower_names]
+    tower_lons = [towers_by_name[name].lon for name in tower_names]
+    tower_z = [towers_by_name[name].z_m for name in tower_names]
 
     coords = {
         "x": ("x", x, {"long_name": "easting", "units": "m"}),
